@@ -458,27 +458,61 @@ def kd_rules(ctx: Ctx, rs: RuleSet, L: str, helpers):
     h = head[0]
     starts = [m for m, lab in g_oa.succ[h] if lab == 'iter']
 
-    def store_nodes(key_var):
-      return [n for n in g_oa.nodes() if g_oa.kind[n] == 'stmt' and isinstance(
-          g_oa.stmt[n], ast.Assign) and isinstance(
-              g_oa.stmt[n].targets[0], ast.Subscript) and isinstance(
-                  g_oa.stmt[n].targets[0].slice, ast.Name) and
-              g_oa.stmt[n].targets[0].slice.id == key_var and
-              g_oa.dominated_by(n, {h}, labels=cfg_lib.NO_EXC)]
+    # the dict that is returned, and every store into it inside the loop
+    rets_ = [r for r in walk_function(f.node) if isinstance(r, ast.Return)
+             and r.value is not None]
+    res_names = {unparse(roles.deref(f, r.value)) for r in rets_} | {
+        unparse(r.value) for r in rets_}
+    stores_ = [n for n in g_oa.nodes() if g_oa.kind[n] == 'stmt' and isinstance(
+        g_oa.stmt[n], ast.Assign) and isinstance(
+            g_oa.stmt[n].targets[0], ast.Subscript) and isinstance(
+                g_oa.stmt[n].targets[0].value, ast.Name) and
+               g_oa.dominated_by(n, {h}, labels=cfg_lib.NO_EXC) and
+               n in g_oa.reach(starts, blocked={h}, labels=cfg_lib.NO_EXC)]
+    param_vars = {x.id for x in ast.walk(g_oa.stmt[h].target)
+                  if isinstance(x, ast.Name)} - {idx_var, name_var}
 
-    def kinds_reaching_store(nodes):
-      return {k for k in ('POSITIONAL_ONLY', 'POSITIONAL_OR_KEYWORD',
-                          'KEYWORD_ONLY', 'VAR_POSITIONAL', 'VAR_KEYWORD')
-              if any(reachable_for_kind(g_oa, starts, n, k, None, {h})
-                     for n in nodes)}
-    by_idx = kinds_reaching_store(store_nodes(idx_var))
-    by_name = kinds_reaching_store(store_nodes(name_var))
-    # index keys for positional-only (and *args elements), names for the
-    # keyword-capable kinds - and never the other way round
-    ok_idx = 'POSITIONAL_ONLY' in by_idx and not (
-        by_idx & {'POSITIONAL_OR_KEYWORD', 'KEYWORD_ONLY'})
-    ok_name = {'POSITIONAL_OR_KEYWORD', 'KEYWORD_ONLY'} <= by_name and (
-        'POSITIONAL_ONLY' not in by_name)
+    def key_class(e, n, kind, depth=0):
+      """'index' / 'name' / None for the key expression e at node n when the
+      parameter has the given kind."""
+      if isinstance(e, ast.Name) and e.id == idx_var:
+        return 'index'
+      if isinstance(e, ast.Name) and e.id == name_var:
+        return 'name'
+      if isinstance(e, ast.Attribute) and e.attr == 'name' and isinstance(
+          e.value, ast.Name) and e.value.id in param_vars:
+        return 'name'
+      if isinstance(e, ast.IfExp):
+        v = sigrules.eval3(e.test, kind, None, f)
+        if v is True:
+          return key_class(e.body, n, kind, depth + 1)
+        if v is False:
+          return key_class(e.orelse, n, kind, depth + 1)
+        a_, b_ = (key_class(e.body, n, kind, depth + 1),
+                  key_class(e.orelse, n, kind, depth + 1))
+        return a_ if a_ == b_ else None
+      if isinstance(e, ast.Name) and depth < 3:
+        rd = [r for r in roles.reaching(g_oa, n, e.id)
+              if sigrules.reachable_for_kind(g_oa, starts, r[0], kind, None,
+                                             {h}, f) or r[0] == h]
+        cls = {key_class(v, m, kind, depth + 1) if k_ == 'value' else None
+               for m, k_, v in rd}
+        return next(iter(cls)) if len(cls) == 1 else None
+      return None
+
+    want = {'POSITIONAL_ONLY': 'index', 'POSITIONAL_OR_KEYWORD': 'name',
+            'KEYWORD_ONLY': 'name'}
+    ok_idx = ok_name = True
+    for kind, cls in want.items():
+      reached = [n for n in stores_ if sigrules.reachable_for_kind(
+          g_oa, starts, n, kind, None, {h}, f)]
+      got = {key_class(g_oa.stmt[n].targets[0].slice, n, kind)
+             for n in reached}
+      good = bool(reached) and got == {cls}
+      if cls == 'index':
+        ok_idx = ok_idx and good
+      else:
+        ok_name = ok_name and good
   rs.check(ok_idx and ok_name, rule, f'{f.qualname}:keys',
            'POSITIONAL_ONLY -> result[index], otherwise result[name]',
            ctx.loc(f, f.node))
@@ -502,14 +536,16 @@ def same_named_keyword(ctx: Ctx, rs: RuleSet):
     if g.kind[n] != 'for':
       continue
     L = g.stmt[n]
-    if not (unparse(L.iter).endswith('.__arguments__.items()') and isinstance(
+    if not (unparse(roles.deref_deep(f, L.iter)).endswith(
+        '.__arguments__.items()') and isinstance(
         L.target, ast.Tuple) and len(L.target.elts) == 2):
       continue
     key_v, val_v = unparse(L.target.elts[0]), unparse(L.target.elts[1])
     pvars = roles.assigned_from(f, lambda e: isinstance(e, ast.Call) and
                                 isinstance(e.func, ast.Attribute) and
                                 e.func.attr == 'get' and unparse(
-                                    e.func.value).endswith('.parameters'))
+                                    roles.deref(f, e.func.value)).endswith(
+                                        '.parameters'))
     pv = next(iter(pvars)) if pvars else None
     body = g.reach([m for m, lab in g.succ[n] if lab == 'iter'], blocked={n},
                    labels=cfg_lib.NO_EXC)
@@ -536,27 +572,73 @@ def same_named_keyword(ctx: Ctx, rs: RuleSet):
              'def f(a, /, **kwargs) builds f(1) and loses a=2'
              if need else f'keys of kind {wrong} are emitted twice',
              ctx.loc(f, L))
-  # positional-only values: the index lookup is consulted before the name
-  ok = False
-  for n in g.nodes():
-    if g.kind[n] != 'if':
+  # positional-only values: the index lookup is consulted before the name.
+  # Under "kind is POSITIONAL_ONLY and the index is in the store" no read of
+  # the store by the parameter's name is reachable within the iteration.
+  from fdlstatic import dispatch
+
+  def is_store(e):
+    e = roles.deref(f, e)
+    return isinstance(e, ast.Attribute) and e.attr == '__arguments__'
+
+  loop_heads = [n for n in g.nodes() if g.kind[n] == 'for' and
+                '.parameters' in unparse(
+                    roles.deref_deep(f, g.stmt[n].iter)) and unparse(
+                    g.stmt[n].iter.func if isinstance(
+                        g.stmt[n].iter, ast.Call) else g.stmt[n].iter
+                ) == 'enumerate']
+  # for <index>, (<name>, <param>) in enumerate(<...>.parameters.items())
+  idx_vars, name_only, param_vars_ = set(), set(), set()
+  for n in loop_heads:
+    tg = g.stmt[n].target
+    if isinstance(tg, ast.Tuple) and len(tg.elts) == 2 and isinstance(
+        tg.elts[0], ast.Name):
+      idx_vars.add(tg.elts[0].id)
+      inner = tg.elts[1]
+      if isinstance(inner, ast.Tuple) and len(inner.elts) == 2:
+        if isinstance(inner.elts[0], ast.Name):
+          name_only.add(inner.elts[0].id)
+        if isinstance(inner.elts[1], ast.Name):
+          param_vars_.add(inner.elts[1].id)
+      elif isinstance(inner, ast.Name):
+        param_vars_.add(inner.id)
+
+  def is_name_key(e):
+    return (isinstance(e, ast.Name) and e.id in name_only) or (
+        isinstance(e, ast.Attribute) and e.attr == 'name' and isinstance(
+            e.value, ast.Name) and e.value.id in param_vars_)
+
+  def po_index_set(v):
+    def ev(t):
+      ka = kind_atom(t)
+      if ka is not None:
+        return ('POSITIONAL_ONLY' in ka[0]) == ka[1] if ka[0] == {
+            'POSITIONAL_ONLY'} else None
+      if isinstance(t, ast.Compare) and len(t.ops) == 1 and isinstance(
+          t.ops[0], (ast.In, ast.NotIn)) and isinstance(
+              t.left, ast.Name) and t.left.id in idx_vars and is_store(
+                  t.comparators[0]):
+        return v if isinstance(t.ops[0], ast.In) else not v
+      return None
+    return dispatch.through_locals(f, ev)
+
+  by_name = [m for m in g.nodes() if g.kind[m] == 'stmt' and any(
+      isinstance(e, ast.Subscript) and isinstance(e.ctx, ast.Load) and
+      is_store(e.value) and is_name_key(e.slice)
+      for e in cfg_lib.walk_node(g, m))]
+  ok = bool(by_name) and bool(loop_heads)
+  for h_ in loop_heads:
+    body_start = [x for x, lab in g.succ[h_] if lab == 'iter']
+    r_set = dispatch.reach_atoms(g, po_index_set(True), start=body_start,
+                                 stop={h_})
+    r_unset = dispatch.reach_atoms(g, po_index_set(False), start=body_start,
+                                   stop={h_})
+    in_loop = [m for m in by_name if m in g.reach(
+        body_start, blocked={h_}, labels=cfg_lib.NO_EXC)]
+    if not in_loop:
       continue
-    t = g.stmt[n].test
-    if 'POSITIONAL_ONLY' in unparse(t) and any(
-        isinstance(c, ast.Compare) and isinstance(c.ops[0], ast.In) and
-        unparse(c.comparators[0]).endswith('.__arguments__')
-        for c in ast.walk(t)):
-      # by-name reads of the store happen only on the false branch
-      by_name = [m for m in g.nodes() if g.kind[m] == 'stmt' and any(
-          isinstance(e, ast.Subscript) and isinstance(e.ctx, ast.Load) and
-          unparse(e.value).endswith('.__arguments__') and isinstance(
-              e.slice, ast.Name) and e.slice.id in _param_name_vars(f)
-          for e in cfg_lib.walk_node(g, m))]
-      t_reach = g.reach([x for x, lab in g.succ[n] if lab == 'true'],
-                        blocked={n} | {x for x in g.nodes()
-                                       if g.kind[x] == 'for'},
-                        labels=cfg_lib.NO_EXC)
-      ok = bool(by_name) and not any(m in t_reach for m in by_name)
+    ok = ok and not any(m in r_set for m in in_loop) and any(
+        m in r_unset for m in in_loop)
   rs.check(ok, rule, f'{f.qualname}:index-first',
            'a positional-only value stored by index is read by index; the '
            'by-name lookup is only the fallback' if ok else
@@ -724,7 +806,7 @@ def children_before_call(ctx: Ctx, rs: RuleSet, rule='DOM.children-before-call')
   rs.declare(rule, 'nested values are built before the call and the call '
              'receives them', 2)
   bf = ctx.func(BUILD)
-  for f in bf.nested.values():
+  for f in ctx.p.callbacks(bf):
     g = ctx.cfg(f)
     call_nodes = [(n, e) for n in g.nodes() for e in cfg_lib.walk_node(g, n)
                   if isinstance(e, ast.Call) and ctx.p.resolve(e.func, f) ==
